@@ -219,6 +219,14 @@ def check_network(ctx, net, ids=None, mol=None, tag=""):
     got8 = sorted((r, sorted(a.items()), sorted(b.items())) for r, a, b in edges_of(H8).values())
     if got8 != exp:
         problems.append(("strings-roundtrip", f"parse_rxns(prefer_suffix=True) {lines_sfx}: got {got8}"))
+    # lines without suffix read with a caller-chosen default rule (single-rule networks)
+    if len({v[0] for v in want.values()}) == 1:
+        the_rule = next(iter(want.values()))[0]
+        H10 = CRNHyperGraph().parse_rxns(lines_plain, default_rule=the_rule)
+        got10 = sorted((r, sorted(a.items()), sorted(b.items())) for r, a, b in edges_of(H10).values())
+        ctx.count("rt_strings_default_rule")
+        if got10 != exp:
+            problems.append(("strings-roundtrip", f"parse_rxns(lines without suffix, default_rule={the_rule!r}) {lines_plain[:3]}: got {got10[:3]} want {exp[:3]}"))
     # explicit rules given for lines that also carry a "| rule=" suffix: the explicit rule wins, the suffix is not a species
     rules_x = ["X" + r_ for r_ in rules_sorted]
     H9 = CRNHyperGraph().parse_rxns(lines_sfx, rules=rules_x)
